@@ -124,8 +124,10 @@ def _case(draw, tier):
                 "fmt": draw(st.sampled_from(["tsv", "parquet"]))}
     if draw(st.integers(0, 5)) == 0:
         return {"kind": "cli", "seed": draw(st.integers(0, 2**31 - 1)), "n_spectra": draw(st.integers(120, 200)),
-                "leftover": draw(st.sampled_from(["crash", "crash", "foreign-valid", "foreign-garbage", "older-version"])),
-                "j": draw(st.integers(0, 400)), "rect": draw(st.sampled_from([False, False, True]))}
+                "leftover": draw(st.sampled_from(["crash", "crash", "crash", "foreign-valid", "foreign-garbage", "older-version"])),
+                "j": draw(st.integers(0, 400)), "rect": draw(st.sampled_from([False, False, True])),
+                # after an interrupted run on this very input the user simply starts mokapot again, without restoring the file
+                "rerun_as_is": draw(st.sampled_from([True, True, False]))}
     if draw(st.integers(0, 6)) == 0:
         return {"kind": "rollup", "seed": draw(st.integers(0, 2**31 - 1)), "first": draw(st.lists(st.sampled_from(["a", "b", "c", "d"]), min_size=1, max_size=3, unique=True)),
                 "second": draw(st.lists(st.sampled_from(["a", "b", "c", "d", "e"]), min_size=1, max_size=3, unique=True)),
@@ -140,6 +142,12 @@ def _case(draw, tier):
     for e in earlier[:-1]:
         e["crash"] = draw(st.sampled_from([None, None, draw(st.integers(0, 80))]))
     ks = "all" if tier != "quick" else sorted(draw(st.lists(st.integers(0, 120), min_size=3, max_size=8, unique=True)))
+    if draw(st.integers(0, 3)) == 0:
+        # no score vectors are handed over: each run ranks by the best feature of its own collection(s)
+        for e in earlier + [obs]:
+            e["best_feature_scores"] = True
+        if draw(st.booleans()):
+            earlier[-1]["n"] = obs["n"]
     return {"kind": "api", "earlier": earlier, "observed": obs, "ks": ks, "after": draw(st.booleans())}
 
 
@@ -175,7 +183,7 @@ def _proteins_for(ds):
                     has_decoys=True)
 
 
-def _assign(spec, ds, scores, dest):
+def _assign(spec, ds, scores, dest, explicit_best=False):
     import mokapot
 
     config_inject.install_pep_stub()
@@ -186,8 +194,19 @@ def _assign(spec, ds, scores, dest):
         ds2, sc2 = _dataset({**spec, "seed": spec["seed"] + 4242, "n": max(6, spec["n"] // 2)}, Path(ds.filename).parent, "agg_")
         dss.append(ds2)
         scs.append(sc2.copy())
+    # (ranking by the best feature needs a feature that accepts something: a lenient threshold for the small tables used here)
+    fdr = 0.9 if spec.get("best_feature_scores") else 0.1
     with config_inject.chunk_sizes(confidence=spec["chunk"]):
-        mokapot.assign_confidence(dss, max_workers=1, scores=scs, descs=[True] * len(dss), eval_fdr=0.1, dest_dir=Path(dest),
+        if spec.get("best_feature_scores") and explicit_best:
+            # reference for the runs below: the same ranking, handed over explicitly
+            scs = []
+            for d_ in dss:
+                feat = d_.find_best_feature(fdr)[0]
+                scs.append(np.asarray(d_.read_data(columns=[feat])[feat].values).copy())
+        elif spec.get("best_feature_scores"):
+            scs = None  # the documented default: every collection is ranked by its own best feature
+        kw = {} if scs is None else {"scores": scs}  # (the argument is left out, as a caller relying on the default does)
+        mokapot.assign_confidence(dss, max_workers=1, **kw, descs=[True] * len(dss), eval_fdr=fdr, dest_dir=Path(dest),
                                   prefixes=[spec["prefix"]] * len(dss), decoys=True, deduplication=spec["dedup"], do_rollup=spec["rollup"],
                                   proteins=prot, peps_algorithm="verif_stub")
 
@@ -227,7 +246,7 @@ def _check_api(case):
         clean.mkdir()
         ods, oscores = _dataset(obs, data, "obs_")
         try:
-            guarded(_assign, obs, ods, oscores, clean, sig="clean-run")
+            guarded(_assign, obs, ods, oscores, clean, explicit_best=True, sig="clean-run")
         except Violation as v:
             raise Rejected("observed run fails in a clean directory: " + v.message[:80]) from None
         ref = {f: (clean / f).read_bytes() for f in _listing(clean)}
@@ -238,10 +257,8 @@ def _check_api(case):
         probe.mkdir()
         lds, lscores = _dataset(last, data, "last_")
         with FaultInjector(at=None) as inj:
-            try:
-                _assign(last, lds, lscores, probe)
-            except Exception as e:  # noqa: BLE001
-                raise Rejected(f"earlier run fails by itself: {type(e).__name__}") from None
+            # (an earlier run is an ordinary run: only the deliberate "nothing accepted" rejection excuses its failure)
+            guarded(_assign, last, lds, lscores, probe, allowed=[(RuntimeError, "No PSMs found below")], sig="earlier-run")
         N = inj.n
         ks = list(range(N)) if case["ks"] == "all" else sorted({k % N for k in case["ks"]})
         afters = [False, True] if case["ks"] == "all" else [case["after"]]
@@ -301,6 +318,8 @@ def _check_api(case):
         classes.append("prefix-with-glob-characters")
     if case["ks"] == "all":
         classes.append("all-crash-points")
+    if obs.get("best_feature_scores"):
+        classes.append("scores-not-handed-over-best-feature")
     return {"nontrivial": visible, "classes": classes, "counters": counters}
 
 
@@ -407,7 +426,15 @@ def _check_cli(case):
             finally:
                 for m in holders:
                     m.pin_to_valid_tsv = real
-            pin.write_text(text)  # the user (re-)provides the input for the observed run
+            if kind == "crash" and not rect and case.get("rerun_as_is"):
+                # the user starts the same command again on the file as the interrupted run left it: it must still be the
+                # user's data (untouched or completely converted), never a partial product
+                now = pin.read_text()
+                require(now in (text, exp_input), "input-destroyed-by-interrupted-run",
+                        f"after a run killed during the conversion (j={j}) the input file holds {now.count(chr(10))} lines, "
+                        f"the user's file had {text.count(chr(10))}")
+            else:
+                pin.write_text(text)  # the user (re-)provides the input for the observed run
         elif kind == "foreign-valid":
             left.write_text("SpecId\tLabel\tScanNr\tExpMass\tf0\tf1\tPeptide\tProteins\nzz\t1\t5\t1.0\t0.5\t0.5\tPEPK\tPX\n")
         else:
@@ -425,9 +452,12 @@ def _check_cli(case):
         require(set(out) == set(ref), "cli-files", f"{sorted(out)} vs {sorted(ref)}; {where}")
         for f in ref:
             require(out[f] == ref[f], "cli-result-altered", f"{f} differs from the clean-directory result; {where}")
-        if not rect:  # (a rectangular input is not converted: a stray file next to it is not this run's temporary)
-            require(not left.exists(), "tsv-left", f"the temporary {left.name} remains next to the input; {where}")
-    return {"nontrivial": had_left, "classes": ["cli", "leftover-" + kind] + (["cli-input-already-rectangular"] if rect else []),
+        # (a scratch file remaining next to the *input* is reported as a class only: the statement speaks of intermediates in
+        #  the destination directory; what matters here is that leftovers never alter the input or the results)
+        stray = ["scratch-file-next-to-input-after-run"] if left.exists() else []
+    return {"nontrivial": had_left or bool(case.get("rerun_as_is")), "classes": ["cli", "leftover-" + kind] + stray
+            + (["cli-rerun-on-file-as-left-by-interrupted-run"] if (kind == "crash" and not rect and case.get("rerun_as_is")) else [])
+            + (["cli-input-already-rectangular"] if rect else []),
             "counters": {"cli_histories": 1}}
 
 
